@@ -153,12 +153,25 @@ DIRECTED: Dict[str, Dict[str, str]] = {
         'pa/__init__.py': '', 'pa/util.py': 'class Tool: pass\n', 'pb/__init__.py': '', 'pb/util.py': 'class Tool: pass\n',
         'pa/use.py': 'from . import util\nfrom pb import util as butil\nimport pb.util\nclass A(util.Tool): pass\nclass B(butil.Tool): pass\nclass C(pb.util.Tool): pass\n',
         'pb/use.py': 'from .util import Tool\nfrom pa.util import Tool as ATool\nimport pa.util as util\nclass D(Tool): pass\nclass E(util.Tool): pass\n'},
+    # a package whose __init__ binds its own submodules (by `from . import x` and as the side effect of `import pkg.y`) is star-imported,
+    # also through a second star import; a top-level module has the name of one of the submodules
+    'star-import-of-package-binding-submodules': {
+        'kit/__init__.py': 'from . import parts\nimport kit.tools\nclass Crate: pass\n', 'kit/parts.py': 'class Bolt: pass\n', 'kit/tools.py': 'class Saw: pass\n',
+        'tools.py': 'class Saw: pass\n',
+        'yard.py': 'from kit import *\nclass Y(parts.Bolt, tools.Saw): pass\n', 'far.py': 'from yard import *\nclass F(parts.Bolt):\n    t = tools\n'},
+    # a class binds a name through a package that merely re-imports it (pydoctor may not follow that: "not at all" is allowed), while the
+    # module and the enclosing class bind the same name to other objects (which Python never consults for the class)
+    'class-binding-shadowed-by-enclosing-scopes': {
+        '#may-not-resolve': 'part part2',
+        'kit/__init__.py': 'from .impl import Widget\n', 'kit/impl.py': 'class Widget: pass\n', 'other.py': 'class Gear: pass\n',
+        'shop.py': 'from other import Gear as part\nclass Bench:\n    from kit import Widget as part\n    class Inner:\n        from kit import Widget as part2\n    from other import Gear as part2\n'},
 }
 
 
 def _judge_directed(res: core.Res, label: str, dump: Dict[str, Any], system: Any, sources: Dict[str, str]) -> None:
     from pydoctor import model
     w = {'project': label, 'sources': sources}
+    lenient = set(sources.get('#may-not-resolve', '').split())
     for full, rt in dump['modules'].items():
         mod = system.allobjects.get(full)
         if not isinstance(mod, model.Module):
@@ -187,7 +200,7 @@ def _judge_directed(res: core.Res, label: str, dump: Dict[str, Any], system: Any
                 if n.startswith('__'):
                     continue
                 # every binding of these projects is an import from (or of) the defining module, or a definition: it must resolve
-                check(ctx, ctxname, n, info, True)
+                check(ctx, ctxname, n, info, n not in lenient or ctx is mod)
                 if info.get('kind') == 'module':
                     target = dump['modules'].get(info['modname'])
                     for k2, i2 in (target or {'ns': {}})['ns'].items():
@@ -215,6 +228,8 @@ def _run_directed(case: Dict[str, Any], res: core.Res) -> None:
     base = Path(tempfile.mkdtemp(prefix='vf04d-'))
     try:
         for rel, text in srcs.items():
+            if rel.startswith('#'):
+                continue
             pth = base / rel
             pth.parent.mkdir(parents=True, exist_ok=True)
             pth.write_text(text)
